@@ -14,7 +14,7 @@ VARIABLES t, p
 vars == <<t, p>>
 Strs == UNION {[1..n -> Alphabet] : n \in 0..MaxLen}
 Init == t \in Strs /\ p \in Strs
-Next == t' \in Strs /\ p' \in Strs
+Next == UNCHANGED vars   \* pure enumeration: every pair is an initial state
 Spec == Init /\ [][Next]_vars
 
 NoWild(s) == \A i \in 1..Len(s) : s[i] \notin {"%", "_"}
